@@ -1,6 +1,6 @@
 (* Props/C05.v — cw3: passed proposals execute at most once; the lifecycle only moves forward. *)
 Require Import CwPlus.Params CwPlus.Base CwPlus.AMap CwPlus.Cw3Threshold CwPlus.Cw4Model CwPlus.Cw3Model
-  CwPlus.Cw3Lemmas CwPlus.Cw3Lemmas2.
+  CwPlus.Cw3ThresholdLemmas CwPlus.Cw3Lemmas CwPlus.Cw3Lemmas2 CwPlus.Cw3Lemmas3.
 Open Scope N_scope.
 
 (* Execute is accepted only while the proposal's status (the same function the queries report) is
@@ -71,11 +71,17 @@ Proof. exact propose_spec. Qed.
 Theorem c05_reachable : forall m gv ms cs, instantiate m gv = Ok ms -> MInv (hrun ms cs).
 Proof. exact reachable_inv. Qed.
 
-(* PARTIAL: the clause "observed status only moves Open -> Passed -> Executed | Open -> Rejected" is
-   decided on the implementation by S_C05 clause 14 at every step; in Coq it follows for the stored
-   status from c05_finished_stays and the stickiness of current_status, and for the computed status of
-   an Open proposal from C04's stability theorems (c04_stable_passed / c04_stable_rejected); the
-   combined history statement is not assembled as one theorem. *)
+(* observed over time the status only moves forward: what a query reports for a proposal before a
+   call (at block b0) and after it (at block b2), blocks not going backwards, is related by
+   Open -> {Open, Passed, Rejected, Executed}, Passed -> {Passed, Executed}, Rejected -> Rejected,
+   Executed -> Executed.  `prange` (ballots within the total, rule validated, total <= u64) is the
+   range condition of C06: on cw3-fixed it holds in every reachable state (c06_fixed). *)
+Theorem c05_monotone : forall ms gv b0 b1 b2 sender o ms' out id p q s s',
+  MInv ms -> step ms gv b1 sender o = Ok (ms', out) ->
+  getp ms id = Some p -> getp ms' id = Some q -> prange p -> prange q ->
+  block_le b0 b1 -> block_le b1 b2 ->
+  prop_status p b0 = Some s -> prop_status q b2 = Some s' -> forward s s' = true.
+Proof. exact status_moves_forward. Qed.
 
 Example c05_nonvacuous :
   exists ms, instantiate (mkInit false [(Some 1, 2); (Some 2, 1)] (AbsCount 2) (DHeight 5) None None true) gview_none = Ok ms /\
@@ -93,3 +99,4 @@ Print Assumptions c05_finished_stays.
 Print Assumptions c05_immutable.
 Print Assumptions c05_propose.
 Print Assumptions c05_reachable.
+Print Assumptions c05_monotone.
